@@ -149,8 +149,11 @@ def reference(kind, mode, par, X, s, e, j):
         ts = col_terms(X, s, e, j)
         if mode == "optim":
             var = rss(ts) / m
-            arg = z3.If(var < FLOOR, z3.RealVal(Fraction(2 * math.pi * 1e-16)), PI2 * var)
-            return m * log_term(arg) + m
+            # at the floor the implementation may form 2*pi*1e-16 as one double product or keep the two factors
+            # apart (e.g. np.maximum instead of an in-place truncation): both are "the definition up to rounding"
+            arg1 = z3.If(var < FLOOR, z3.RealVal(Fraction(2 * math.pi * 1e-16)), PI2 * var)
+            arg2 = z3.If(var < FLOOR, PI2 * FLOOR, PI2 * var)
+            return [m * log_term(arg1) + m, m * log_term(arg2) + m]
         return m * log_term(PI2 * par["var"][j]) + rss(ts, par["mu"][j]) / par["var"][j]
     # gcov
     if mode == "optim":
@@ -241,7 +244,8 @@ def _value_harness(kind, mode, n, p, s, e):
             if tuple(out.shape) != (1, ncols):
                 return
             for j in range(ncols):
-                acc.oblige(eng, f"{kind}.{mode}.value", rv(out[0, j]) == refs[j], dict(info, col=j))
+                alts = refs[j] if isinstance(refs[j], list) else [refs[j]]
+                acc.oblige(eng, f"{kind}.{mode}.value", z3.Or([rv(out[0, j]) == r for r in alts]), dict(info, col=j))
             _witness(eng, acc, kind, mode, n, p, s, e, out)
             acc.sample(dict(info, term=str(z3.simplify(rv(out[0, 0])))[:300]))
 
